@@ -71,7 +71,8 @@ SAN_FLAGS = ["-fsanitize=address,undefined", "-fno-sanitize-recover=undefined"]
 def build(source, defines=(), compiler="g++", std="c++11", opt="-O1", sanitize=True, extra=(), name=None):
     """Compile harness/<source> against /repo's current headers; cached by content hash."""
     src = os.path.join(HARNESS, source)
-    flags = [compiler, "-std=" + std, opt] + BASE_FLAGS + (SAN_FLAGS if sanitize else []) + ["-D" + d for d in defines] + list(extra)
+    san = ["-fsanitize=thread"] if sanitize == "thread" else (SAN_FLAGS if sanitize else [])
+    flags = [compiler, "-std=" + std, opt] + BASE_FLAGS + san + ["-D" + d for d in defines] + list(extra)
     h = _hash_files(harness_files())
     h.update(repo_hash().encode())
     h.update(" ".join(flags).encode())
